@@ -12,6 +12,7 @@ CONSTANTS
   CfiLayouts = {"none"}
   Isa = "arm64"
   WithScopes = TRUE
+  Retargets = {FALSE}
   AlignOpts = {0}
   InsFns = {"none"}
   Emit = TRUE
